@@ -140,6 +140,11 @@ def pick_faults(base, rng, tier):
             if not any(tree[mj][f] for mj in majors for f in tree[mj]):
                 break
         picked += got
+    # directed: a type assigned twice is among the faults of EVERY run (the fault that a module OID hid from the fixer:
+    # C11-duptype-with-oid-accepted, repaired; the environments oid-alone, hdr-unknown-oid, oid2-*, stdclash* give the OID)
+    if not any(b[3]["classes"] == ["duptype"] for b in picked):
+        cand = [b for b in base if b[3]["classes"] == ["duptype"] and b[2]["model"].split(":")[0] == "REJECT"]
+        picked += cand[:1]
     return picked
 
 
